@@ -25,7 +25,7 @@ TRUSTED = ["harness/c14.py, harness/tcommon.py + driver JSON glue",
            "JSON side-car: the value tree is modelled (saveSubs / loadSubs, compared with the file written / the mesh loaded by the real code); the text layer (json.dump/json.load, repr of binary64) is trusted",
            "h5py persistence is observed, not modelled"]
 ASSUMPTIONS = ["dyadic corners and cells: alignment remainders are exact in binary64 at moderate scales"]
-UNPROVED = ["HDF5 subregion tables: round trip observed on the real code only (no model of h5py datasets)",
+UNPROVED = ["HDF5: the C14 side is proved on C10's model of io/hdf5.py (hdf5_loaded_same_values / hdf5_loaded_subInv: the mesh the reader returns has the same values and SubInv; hdf5_load_through_setter / hdf5_load_passed_subOk: whatever the file holds went through the setter); that meshLoad(meshSave m) IS that mesh is C10's theorem mesh_roundtrip (not re-proved here), and h5py/libhdf5 byte encoding is trusted",
             "SubInv is the exact-arithmetic (tolerance 0) reading; what the tolerant setter accepts beyond it is characterised per axis only (aligned_tol_sound / isAligned_sound), and is_aligned's absolute 1e-12 tolerance is known finding D18",
             "selection theorems are stated for meshes satisfying SubInv; plane/range selections of meshes holding tolerance-accepted but inexact subregions are covered by the correspondence run only"]
 BUDGET = {"quick": 90, "thorough": 900}
